@@ -29,9 +29,19 @@ pub fn implemented() -> Vec<&'static str> {
     vec!["C01", "C02", "C03", "C04", "C05", "C06", "C07", "C08", "C09", "C12", "C13", "C14", "C15", "C16"]
 }
 
-pub fn execute(prop: &'static str, tier: Tier, choices: Choices, record_trace: bool) -> Outcome {
-    let world = World::new(choices, FaultCfg::default(), record_trace);
-    let scn = match prop {
+/// Builds the scenario of a run without executing it: its description and the swarm choices drawn
+/// so far (used to document runs that kill the process).
+pub fn describe(prop: &'static str, tier: Tier, choices: Choices) -> (String, Vec<(&'static str, u32)>) {
+    let world = World::new(choices, FaultCfg::default(), false);
+    let scn = build(prop, tier, &world);
+    world.finish(EndReason::Quiescent);
+    let g = world.lock();
+    (scn.desc.clone(), g.choices.log.clone())
+}
+
+fn build(prop: &'static str, tier: Tier, world: &std::sync::Arc<World>) -> scen::Scn {
+    let world = world.clone();
+    match prop {
         "C01" | "C02" | "C04" | "C07" | "C08" => scen::xfer(prop, tier, &world),
         "C03" => crate::scen_srv::confine(tier, &world),
         "C05" => crate::scen_srv::hostile(tier, &world),
@@ -43,7 +53,12 @@ pub fn execute(prop: &'static str, tier: Tier, choices: Choices, record_trace: b
         "C15" => crate::scen_more::wrap(tier, &world),
         "C16" => crate::scen_more::dupmode(tier, &world),
         _ => panic!("no scenario for {prop}"),
-    };
+    }
+}
+
+pub fn execute(prop: &'static str, tier: Tier, choices: Choices, record_trace: bool) -> Outcome {
+    let world = World::new(choices, FaultCfg::default(), record_trace);
+    let scn = build(prop, tier, &world);
     let end = world.run(scn.step_cap, scn.time_cap);
     world.finish(end);
     let mut g = world.lock();
